@@ -8,6 +8,7 @@ real suspensions, `oob m d` calls on any monitor, return, raise), every `SBody` 
 against the monitor cells, in particular `nest p c` to any depth) and every `PBody`.
 -/
 import Asynkit.Lemmas.C07
+import Asynkit.Lemmas.C07Nest
 
 namespace Asynkit.C07
 open Asynkit.Proto (Val Exc Resume)
@@ -356,12 +357,180 @@ theorem nested_monitors_outer_view {c : SBody} (mA : MonId) (first : Resume) (sy
   simp [asendStart, h0, hr, relayAfter, relayTop]
 
 /-
-Not proved as a single statement (hence the two views above instead of one `nested_monitors`):
-  for a `nest` of arbitrary depth, the *sequence* of OOBData seen by the outermost driver equals
-  the sequence of `mA.oob` calls of the innermost body.  It follows from the two views by induction
-  on the nesting depth with the invariant "at most the addressed cell is -1 at a yield"; the
-  induction over `nestRun` was not carried out.
+The single end-to-end statement is `nested_monitors` / `nested_monitors_resume` / `nested_monitors_tower`
+below (any depth, by `tagNest` on the nest structure).  Its hypothesis `Safe` — no GeneratorExit arrives
+from above while a parent waits in a sub-call — cannot be dropped: `stale_oob_after_close`.
 -/
+
+/-! ## nested monitors, end to end, any depth -/
+
+/-- parents (outermost first) stacked over a leaf body: `tower [p₁, p₂] b = nest p₁ (nest p₂ (ofM b))` -/
+def tower : List PBody → MBody → SBody
+  | [], b => ofM b
+  | p :: ps, b => nest p (tower ps b)
+
+/-- side condition on a tower: a parent whose child is itself a parent never sends GeneratorExit down
+    (`aclose`/`athrow(GeneratorExit)` on a child that may be waiting in its own sub-call; see
+    `stale_oob_after_close`).  The innermost parent — the whole tower at depth 2 — is unrestricted. -/
+def TowerOk : List PBody → Prop
+  | [] => True
+  | [_] => True
+  | p :: q :: ps => (∀ s r, (p.resume s r).GEfree) ∧ TowerOk (q :: ps)
+
+/-- every tower is tagged, for every monitor -/
+def tagTower (A : MonId) (b : MBody) : (ps : List PBody) → TowerOk ps → Tag A (tower ps b)
+  | [], _ => tagLeaf A b
+  | [p], _ => tagNest (tagLeaf A b) p (fun _ _ => Or.inl (fun _ => trivial))
+  | p :: q :: ps, h => tagNest (tagTower A b (q :: ps) h.2) p (fun s r => Or.inr (h.1 s r))
+
+/-- **nested_monitors** (first activation of a call of `A`), for every coroutine with the tag property —
+    by `tagTower` every tower of parents over a leaf, to any depth, each parent driving its child
+    through any monitors and everybody calling `oob` on any monitor.  With nothing in flight (`NoNeg`)
+    and `A` idle:
+    * if the activation's *source* is `some d` (syntactically: it ended because a body below executed
+      `await A.oob(d)`, `nestSrc`/`stepSrc`), the driver of `A` gets `OOBData d`, and `A` is idle;
+    * otherwise it gets exactly the coroutine's own outcome — a real suspension, or an `oob` addressed
+      to someone else, is `pending`, never OOBData from `A`'s relay;
+    * afterwards nothing is in flight again (completed) / at most the one value addressed to a monitor
+      *outside* the tower is (pending), `A`'s cell is 0 / 1, and the state is reachable again — so the
+      statement applies to the next call: each `A.oob` surfaces exactly once, in program order.
+    Applied with `A := B` and `c :=` the sub-tower, the same theorem is what a *parent* sees of the
+    monitor `B` it drives its child through (`nested_monitors_inner_view` spells that out for a leaf):
+    each driver sees exactly its own data. -/
+theorem nested_monitors {c : SBody} {A : MonId} (T : Tag A c) (first : Resume) (cc : CSt c.σ) (env : Env)
+    (hok : okC T cc) (hq : Safe first ∨ quietC T cc) (hn : NoNeg env) (h0 : env A = 0) :
+    let x := SCoro.resume c cc first (env.set A 1)
+    let res := asendStart A first (⟨cc, env⟩ : Sys c)
+    (∀ d, coroSrc T cc first (env.set A 1) = some d →
+        x.2.1 = .yield d ∧ res = (⟨x.1, x.2.2.set A 0⟩, .raised (.oobData d))) ∧
+    (coroSrc T cc first (env.set A 1) = none →
+        res = match x.2.1 with
+          | .yield y => (⟨x.1, x.2.2⟩, .pending y)
+          | .ret v => (⟨x.1, x.2.2.set A 0⟩, .returned v)
+          | .raise (.oobData _) => (⟨x.1, x.2.2.set A 0⟩, .raised (.runtime rtRaisedOOB))
+          | .raise e => (⟨x.1, x.2.2.set A 0⟩, .raised e)) ∧
+    okC T res.1.coro ∧
+    (match res.2 with
+      | .pending _ => AtMostOneNeg res.1.env ∧ res.1.env A = 1
+      | _ => NoNeg res.1.env ∧ res.1.env A = 0) := by
+  intro x res
+  have hp := coro_post T cc first (env.set A 1) hok hq (hn.set A 1 (by decide)) (by simp)
+  have hres : res = asendStart A first (⟨cc, env⟩ : Sys c) := rfl
+  have hx : x = SCoro.resume c cc first (env.set A 1) := rfl
+  rw [← hx] at hp
+  obtain ⟨cs, o, env1⟩ := x
+  dsimp only at hp
+  obtain ⟨hok', hrest⟩ := hp
+  cases o with
+  | yield y =>
+    obtain ⟨hone, hA, hs1, hs2⟩ := hrest
+    cases hA with
+    | inl hA1 =>
+      have hr : res = (⟨cs, env1⟩, .pending y) := by
+        rw [hres]; simp [asendStart, h0, ← hx, relayAfter, relayTop, hA1]
+      refine ⟨fun d hd => ?_, fun _ => hr, ?_, ?_⟩
+      · rw [hs2 hA1] at hd; exact absurd hd (by simp)
+      · rw [hr]; exact hok'
+      · rw [hr]; exact ⟨hone, hA1⟩
+    | inr hAm =>
+      have hr : res = (⟨cs, env1.set A 0⟩, .raised (.oobData y)) := by
+        rw [hres]; simp [asendStart, h0, ← hx, relayAfter, relayTop, hAm]
+      refine ⟨fun d hd => ?_, fun hnone => ?_, ?_, ?_⟩
+      · rw [hs1 hAm] at hd
+        cases hd
+        exact ⟨rfl, hr⟩
+      · rw [hs1 hAm] at hnone; exact absurd hnone (by simp)
+      · rw [hr]; exact hok'
+      · rw [hr]; exact ⟨hone.consume A hAm 0 (by decide), by simp⟩
+  | ret v =>
+    obtain ⟨hn1, hA1, hs⟩ := hrest
+    have hr : res = (⟨cs, env1.set A 0⟩, .returned v) := by
+      rw [hres]; simp [asendStart, h0, ← hx, relayAfter]
+    refine ⟨fun d hd => ?_, fun _ => hr, ?_, ?_⟩
+    · rw [hs] at hd; exact absurd hd (by simp)
+    · rw [hr]; exact hok'
+    · rw [hr]; exact ⟨hn1.set A 0 (by decide), by simp⟩
+  | raise e =>
+    obtain ⟨hn1, hA1, hs⟩ := hrest
+    have hr : res = match e with
+        | .oobData _ => (⟨cs, env1.set A 0⟩, .raised (.runtime rtRaisedOOB))
+        | e => (⟨cs, env1.set A 0⟩, .raised e) := by
+      rw [hres]; cases e <;> simp [asendStart, h0, ← hx, relayAfter]
+    refine ⟨fun d hd => ?_, fun _ => by rw [hr]; cases e <;> rfl, ?_, ?_⟩
+    · rw [hs] at hd; exact absurd hd (by simp)
+    · rw [hr]; cases e <;> exact hok'
+    · rw [hr]; cases e <;> exact ⟨hn1.set A 0 (by decide), by simp⟩
+
+/-- **nested_monitors**, resumption of a suspended call of `A` by the outer loop with a value or a
+    non-GeneratorExit exception: same classification. -/
+theorem nested_monitors_resume {c : SBody} {A : MonId} (T : Tag A c) (r : Resume) (hr : Safe r)
+    (cc : CSt c.σ) (env : Env) (hok : okC T cc) (hn : NoNeg env) (h1 : env A = 1) :
+    let x := SCoro.resume c cc r env
+    let res := asendResume A r (⟨cc, env⟩ : Sys c)
+    (∀ d, coroSrc T cc r env = some d →
+        x.2.1 = .yield d ∧ res = (⟨x.1, x.2.2.set A 0⟩, .raised (.oobData d))) ∧
+    (coroSrc T cc r env = none →
+        res = match x.2.1 with
+          | .yield y => (⟨x.1, x.2.2⟩, .pending y)
+          | .ret v => (⟨x.1, x.2.2.set A 0⟩, .returned v)
+          | .raise e => (⟨x.1, x.2.2.set A 0⟩, .raised e)) ∧
+    okC T res.1.coro ∧
+    (match res.2 with
+      | .pending _ => AtMostOneNeg res.1.env ∧ res.1.env A = 1
+      | _ => NoNeg res.1.env ∧ res.1.env A = 0) := by
+  intro x res
+  have hp := coro_post T cc r env hok (Or.inl hr) hn h1
+  have hres : res = relayAfter A (SCoro.resume c cc r env) := asendResume_relay A r hr ⟨cc, env⟩
+  have hx : x = SCoro.resume c cc r env := rfl
+  rw [← hx] at hp hres
+  obtain ⟨cs, o, env1⟩ := x
+  dsimp only at hp
+  obtain ⟨hok', hrest⟩ := hp
+  cases o with
+  | yield y =>
+    obtain ⟨hone, hA, hs1, hs2⟩ := hrest
+    cases hA with
+    | inl hA1 =>
+      have hr' : res = (⟨cs, env1⟩, .pending y) := by
+        rw [hres]; simp [relayAfter, relayTop, hA1]
+      refine ⟨fun d hd => ?_, fun _ => hr', ?_, ?_⟩
+      · rw [hs2 hA1] at hd; exact absurd hd (by simp)
+      · rw [hr']; exact hok'
+      · rw [hr']; exact ⟨hone, hA1⟩
+    | inr hAm =>
+      have hr' : res = (⟨cs, env1.set A 0⟩, .raised (.oobData y)) := by
+        rw [hres]; simp [relayAfter, relayTop, hAm]
+      refine ⟨fun d hd => ?_, fun hnone => ?_, ?_, ?_⟩
+      · rw [hs1 hAm] at hd
+        cases hd
+        exact ⟨rfl, hr'⟩
+      · rw [hs1 hAm] at hnone; exact absurd hnone (by simp)
+      · rw [hr']; exact hok'
+      · rw [hr']; exact ⟨hone.consume A hAm 0 (by decide), by simp⟩
+  | ret v =>
+    obtain ⟨hn1, hA1, hs⟩ := hrest
+    have hr' : res = (⟨cs, env1.set A 0⟩, .returned v) := by rw [hres]; simp [relayAfter]
+    refine ⟨fun d hd => ?_, fun _ => hr', ?_, ?_⟩
+    · rw [hs] at hd; exact absurd hd (by simp)
+    · rw [hr']; exact hok'
+    · rw [hr']; exact ⟨hn1.set A 0 (by decide), by simp⟩
+  | raise e =>
+    obtain ⟨hn1, hA1, hs⟩ := hrest
+    have hr' : res = (⟨cs, env1.set A 0⟩, .raised e) := by rw [hres]; simp [relayAfter]
+    refine ⟨fun d hd => ?_, fun _ => hr', ?_, ?_⟩
+    · rw [hs] at hd; exact absurd hd (by simp)
+    · rw [hr']; exact hok'
+    · rw [hr']; exact ⟨hn1.set A 0 (by decide), by simp⟩
+
+/-- the theorem instantiated for towers of any depth -/
+theorem nested_monitors_tower (A : MonId) (b : MBody) (ps : List PBody) (h : TowerOk ps) (first : Resume)
+    (cc : CSt (tower ps b).σ) (env : Env) (hok : okC (tagTower A b ps h) cc)
+    (hq : Safe first ∨ quietC (tagTower A b ps h) cc) (hn : NoNeg env) (h0 : env A = 0) (d : Val)
+    (hd : coroSrc (tagTower A b ps h) cc first (env.set A 1) = some d) :
+    (asendStart A first (⟨cc, env⟩ : Sys (tower ps b))).2 = .raised (.oobData d) :=
+  by
+    have := (nested_monitors (tagTower A b ps h) first cc env hok hq hn h0).1 d hd
+    rw [this.2]
 
 /-! ## non-vacuity -/
 
@@ -398,5 +567,77 @@ example :
     let d1 := (monStep demo 0 (monStep demo 0 (⟨.created demo.init, fun _ => 0⟩, none) (.call (.aawait 0))).1
       (.call (.aawait 7))).1
     d1.1.env 0 = 1 ∧ (callStart 0 (.aawait 3) d1.1).2 = .raised (.runtime rtReenter) := by decide
+
+/-! ### nested monitors: a concrete tower, and the counter-example that makes `Safe` necessary -/
+
+/-- innermost body, talking to the inner monitor 1 and the outer monitor 0:
+    `await M1.oob(11); await M0.oob(22); await tok(100); await M1.oob(12); return 7`;
+    when GeneratorExit reaches it while it waits in `M0.oob(22)` it answers with `M0.oob(99)`. -/
+def kid : MBody where
+  σ := Nat
+  init := 0
+  resume s r :=
+    match s, r with
+    | 0, .send _ => .oob 1 11 1 (fun _ => .raise (.runtime rtNotActive) 9)
+    | 1, .send _ => .oob 0 22 2 (fun _ => .raise (.runtime rtNotActive) 9)
+    | 2, .throw .genExit => .oob 0 99 5 (fun _ => .raise (.runtime rtNotActive) 9)
+    | 2, .send _ => .yield 100 3
+    | 3, .send _ => .oob 1 12 4 (fun _ => .raise (.runtime rtNotActive) 9)
+    | 4, .send _ => .ret 7 9
+    | _, .throw e => .raise e 9
+    | _, .send _ => .ret 0 9
+
+/-- the parent drives `kid` through monitor 1: `start`, then `aawait` in a loop; child data `d` is passed
+    on to its own driver as `M0.oob(d + 1000)`; after a RuntimeError it really suspends on token 150. -/
+def dadLoop : Option Resume → Resume → PStep Nat
+  | _, .send v => .ret v 9
+  | _, .throw (.oobData d) => .oob 0 (d + 1000) 3 (fun _ => .raise (.runtime rtNotActive) 9)
+  | _, .throw (.runtime _) => .yield 150 4
+  | _, .throw e => .raise e 9
+
+def dad : PBody where
+  σ := Nat
+  init := 0
+  resume s r :=
+    match s, r with
+    | 0, .send _ => .sub 1 .start 1 (fun _ res =>
+        match res with
+        | .send _ => .sub 1 (.aawait 0) 2 dadLoop
+        | .throw e => .raise e 9)
+    | 3, .send _ => .sub 1 (.aawait 0) 2 dadLoop
+    | 4, .send v => .ret v 9
+    | _, .throw e => .raise e 9
+    | _, .send _ => .ret 0 9
+
+abbrev duo : SBody := tower [dad] kid
+
+def duoStep (d : Sys duo × Option Op) (a : Act) : (Sys duo × Option Op) × Option CallOut :=
+  match d, a with
+  | (sys, none), .call op => let r := callStart 0 op sys; ((r.1, pendOf op r.2), some r.2)
+  | (sys, some op), .resume r => let x := callResume 0 op r sys; ((x.1, pendOf op x.2), some x.2)
+  | st, _ => (st, none)
+
+/-- the driver of monitor 0 sees exactly the data addressed to it — the kid's 22 and the parent's
+    relayed 1012 — in program order, the real suspension as a real suspension, and never the kid's
+    data for monitor 1 (11, 12), which only the parent sees; monitor 0 idle after every completion -/
+example :
+    showOuts (runTrace duoStep (⟨.created duo.init, fun _ => 0⟩, none)
+      [.call (.aawait 0), .call (.aawait 5), .resume (.send 0), .call (.aawait 0)])
+    = [.raised (.oobData 22), .pending 100, .raised (.oobData 1012), .returned 7] := by decide
+
+example : TowerOk [dad] := trivial
+
+example : okC (tagTower 0 kid [dad] trivial) (.created duo.init) := trivial
+
+/-- **The full statement is false without `Safe`** (genuine finding, notes/C07.md).  After the kid's
+    `M0.oob(22)` was delivered, the driver throws GeneratorExit in with `athrow` (or `aclose`): the
+    parent is waiting in `M1.aawait(kid)`, so monitor 1's relay *closes* the kid; the kid answers the
+    GeneratorExit with `M0.oob(99)`, which by design is only a RuntimeError for the closer — but
+    monitor 0's cell stays at -1.  The parent handles the RuntimeError and really suspends on token
+    150, and monitor 0 reports that real suspension to its driver as `OOBData 150`. -/
+theorem stale_oob_after_close :
+    let s1 := (callStart 0 (.aawait 0) (⟨.created duo.init, fun _ => 0⟩ : Sys duo)).1
+    (callStart 0 (.athrow .genExit) s1).2 = .raised (.oobData 150) ∧
+    (callStart 0 .aclose s1).2 = .raised (.runtime rtMonIgnoredGE) := by decide
 
 end Asynkit.C07
